@@ -49,6 +49,9 @@ def cases(tier, seed):
             continue
         if cls == 4:      # no table: CR and GwIn must be zero
             sp = gen.config(rng, p_gw=0.0, seasons=(1, 2), p_custom=0.3, hostile=True)
+            if i % 12 == 4:
+                # observations left in place with the water table switched off
+                sp["gw_off"] = dict(gen.gw_spec(rng, S.d(sp["start"]), S.d(sp["end"]), depths=(0.5, 0.9, 1.4)), switched_off=True)
             out.append({"spec": sp})
             continue
         depths = [(0.0, 0.04, 0.2, 0.4, 0.6, 0.9), (1.0, 1.3, 1.6, 2.0), (2.5, 3.5, 5.0), (0.3, 0.8, 1.5, 2.5, 6.0, 30.0)][cls]
